@@ -13,6 +13,10 @@ pub trait Backend {
     fn sleep(&self, d: Duration) -> BoxFut;
     /// a payload (`"task"`, `"stop"`, `"restart"`) or `"none"` left the mailbox of context `ctx`
     fn dequeued(&self, _ctx: u64, _kind: &'static str) {}
+    /// the broker with context `ctx` is at step `what` of a handler (`"publish"`, `"holds"`,
+    /// `"target"`, `"published"`, `"subscribe"`, `"unsubscribe"`); `arg` is the context id of the
+    /// subscriber concerned (0 if none)
+    fn broker(&self, _ctx: u64, _what: &'static str, _arg: u64) {}
 }
 
 thread_local! { static BACKEND: RefCell<Option<Rc<dyn Backend>>> = const { RefCell::new(None) }; }
@@ -43,6 +47,12 @@ pub(crate) fn dequeued<A>(ctx: crate::context::ContextID, payload: Option<&crate
             None => "none",
         };
         b.dequeued(ctx.raw(), kind);
+    }
+}
+
+pub(crate) fn broker(ctx: crate::context::ContextID, what: &'static str, arg: u64) {
+    if let Some(b) = backend() {
+        b.broker(ctx.raw(), what, arg);
     }
 }
 
